@@ -53,18 +53,25 @@ def isDuplicate (a : Aln) : Bool := a.flag.testBit 10
 def isSupplementary (a : Aln) : Bool := a.flag.testBit 11
 end Aln
 
-/-- `get_aligned_pairs(matches_only=True)`: (query index, reference position) of every M / = / X column.
-I and S consume the query only, D and N the reference only, H and P nothing. -/
-def alignedPairsFrom : List (Nat × CigarOp) → Nat → Nat → List (Nat × Nat)
+/-- Walk of a CIGAR: (query index, reference position) of every M / = / X column.
+I and S consume the query only, D and N the reference only, H nothing. A padding op P consumes nothing in the SAM
+specification (`padQ = false`, what htslib's pileup does); pysam 0.24.1 `get_aligned_pairs` advances the query
+index over P as if it were an insertion (`padQ = true`, what `extract_read_variants` therefore sees). -/
+def alignedPairsFrom (padQ : Bool) : List (Nat × CigarOp) → Nat → Nat → List (Nat × Nat)
   | [], _, _ => []
   | (n, op) :: t, q, r =>
     match op with
-    | .M | .EQ | .X => (List.range n).map (fun i => (q + i, r + i)) ++ alignedPairsFrom t (q + n) (r + n)
-    | .I | .S => alignedPairsFrom t (q + n) r
-    | .D | .N => alignedPairsFrom t q (r + n)
-    | .H | .P => alignedPairsFrom t q r
+    | .M | .EQ | .X => (List.range n).map (fun i => (q + i, r + i)) ++ alignedPairsFrom padQ t (q + n) (r + n)
+    | .I | .S => alignedPairsFrom padQ t (q + n) r
+    | .D | .N => alignedPairsFrom padQ t q (r + n)
+    | .H => alignedPairsFrom padQ t q r
+    | .P => alignedPairsFrom padQ t (if padQ then q + n else q) r
 
-def Aln.pairs (a : Aln) : List (Nat × Nat) := alignedPairsFrom a.cigar 0 a.pos
+/-- `read.get_aligned_pairs(matches_only=True)` as pysam computes it -/
+def Aln.pairs (a : Aln) : List (Nat × Nat) := alignedPairsFrom true a.cigar 0 a.pos
+
+/-- the aligned columns per the SAM specification -/
+def Aln.samPairs (a : Aln) : List (Nat × Nat) := alignedPairsFrom false a.cigar 0 a.pos
 
 /-- number of reference bases the CIGAR consumes -/
 def cigarRefLen : List (Nat × CigarOp) → Nat
@@ -272,11 +279,11 @@ def roundHalfEven (s n : Nat) : Nat :=
 
 /-- one probabilistic cell of `as_probabilistic(calls, n_alleles, p, error_factor=3)`; `none` = NaN -/
 def probCell (nAlleles : Nat) (call : Option Nat) (p : Rat) (a : Nat) : Option Rat :=
-  match call with
-  | none => none                           -- new[array < 0] = nan
-  | some c =>
-    if nAlleles ≤ a then some 0            -- zero out non-alleles (applied last)
-    else if a = c then some p else some ((1 - p) / 3)
+  if nAlleles ≤ a then some 0              -- `new[..., n_alleles <= alleles] = 0` is applied last, also to gaps
+  else
+    match call with
+    | none => none                         -- `new[array < 0] = nan`
+    | some c => if a = c then some p else some ((1 - p) / 3)
 
 /-- probability that the call is correct: `(1 - error_rate)` times `prob_of_qual(qual)` when phred scores are used;
 `phred` is the table qual ↦ `1 - 10^(-qual/10)` (irrational in general, supplied as the exact value of the float) -/
